@@ -53,8 +53,10 @@ CHECKS["C05"] = dict(
 
 _STATIC_NOTE = ("Frameworks and queries are concrete per harness (2 arguments in quick, 2-3 in thorough; plain / duplicated-attack / sparse-id "
                 "presentations); CBMC decides over every model the SAT backend may return at every call (demonic oracle). OUTSIDE the claim: the iterative solvers "
-                "PR (SE/DS), SST, STG, ID (CBMC does not finish on them even for a<->b: measured 57 GB / 19 min), frameworks with >3 arguments, the real backends. "
-                "Trusted: Kani 0.68/CBMC 6.11, VecMap for HashMap under cfg(kani), three stubs (format, Backtrace::capture, anyhow::Error drop), the reference "
+                "PR (SE/DS), SST, STG, ID as soon as the backend returns a model (CBMC does not finish on them even for a<->b: measured 57 GB / 19 min; even one arbitrary model times out); "
+                "they are covered only on frameworks whose grounded extension decides every argument, where every SAT call is unsatisfiable (a->b, two isolated arguments, a->b->c). "
+                "Also outside: frameworks with >3 arguments, the real backends. "
+                "Trusted: Kani 0.68/CBMC 6.11, VecMap for HashMap under cfg(kani), the stubs (format, Backtrace::capture, anyhow::Error drop; fmt::write in the DIMACS harness; unwrap_model in the C17 harnesses, see DESIGN.md section 4), the reference "
                 "semantics (cross-validated natively on all frameworks with <=3 arguments).")
 _STATIC = {
     "C01": "single-extension answers of the stable and grounded (GR, SE-CO) solvers are extensions given in the caller's own arguments; 'no extension' only when none exists",
@@ -64,7 +66,7 @@ _STATIC = {
     "C06": "on one solver object the same query with and without certificate, repeated and in different orders, gives the reference status each time; the complete solver gives one status for the aux_var, exp and hybrid encodings; the framework is unchanged by querying (stable, complete, grounded solvers)",
     "C07": "queries over every ordered pair of arguments are answered as disjunctions, with and without certificate (complete, stable, grounded solvers; cross-component case at 3 arguments)",
     "C16": "clause (a) only: no SAT call of the stable / complete solvers carries an assumption on a variable above n_vars(), i.e. the DIMACS header written by BufferedSatSolver covers the instance",
-    "C17": "when the k-th SAT call (k symbolic) of a stable / complete query returns Unknown, the query never returns a status or an extension (it aborts by the panic of unwrap_model)",
+    "C17": "when the k-th SAT call (k symbolic) of a stable / complete query returns Unknown, or when the backend of a preferred / semi-stable / stage / ideal query is dead from the first call on, the query never returns a status or an extension (it aborts by the panic of unwrap_model, which is checked on the real function by its own harness)",
     "C18": "the stable and complete solvers make at most two SAT calls per solver instance (= per connected component)",
 }
 for _p, _t in _STATIC.items():
@@ -76,19 +78,23 @@ for _p, _t in _STATIC.items():
         design="DESIGN.md sections 3.3, 3.4, 4")
 CHECKS["C14"] = dict(
     category="model_checking",
-    technique="Kani/CBMC bounded model checking of the real response writers and AspartixWriter::write_framework against a reference printer/reader (formatting not stubbed)",
-    text="For symbolic extensions (length 0..2, symbolic usize labels < 1000 for ICCMA'23, labels among three identifiers for Aspartix), a symbolic status and a "
-         "framework from which a symbolically chosen argument was removed, the bytes written by the real writers equal the reference printer's output, and the "
-         "ICCMA'23 witness line is mapped back to the same labels by a reference reader.",
-    note="OUTSIDE: reading the Aspartix text back through the regex-based AspartixReader (not compilable to CBMC; its patterns are covered by C13), extensions of "
-         "more than two arguments, other histories. Trusted: Kani/CBMC, the reference printer/reader of the harness.",
+    technique="Kani/CBMC bounded model checking of the real ICCMA'23 response writer and of the status writers of both formats against a reference printer (formatting not stubbed)",
+    text="For ICCMA'23 extensions of 0, 1 and 2 (thorough) arguments with a symbolic usize label (< 1000, < 100 with two arguments) and for a symbolic acceptance status "
+         "with both writers, the bytes written by the real writers equal the reference printer's output (`w` + ` label`* + newline; YES / NO), which a reference reader maps "
+         "back to the labels written.",
+    note="OUTSIDE (measured: CBMC out of memory at 24-59 GB or time-out): the Aspartix extension writer and AspartixWriter::write_framework with String labels, hence the "
+         "framework round trip and update histories; reading back through the regex-based AspartixReader (its patterns are covered by C13); extensions of more than two "
+         "arguments. Trusted: Kani/CBMC, the reference printer/reader of the harness.",
     design="DESIGN.md section 4 (C14)")
 CHECKS["C12"] = dict(
     category="model_checking",
-    technique="Kani/CBMC bounded model checking of AAFramework<usize> under a symbolic operation sequence against a set model",
-    text="K symbolic operations (kind and both operands symbolic over two labels) on the real store; every Result and, at the end, every observable is "
-         "compared with a plain set model; K = 1, 2 in the quick tier.",
-    note="OUTSIDE: longer histories, more labels, String labels. VecMap stands for HashMap under cfg(kani); counterexamples are confirmed natively with the real HashMap.",
+    technique="Kani/CBMC bounded model checking of one operation of AAFramework<usize> with symbolic operands from enumerated reachable pre-states, against a set model",
+    text="The real store is brought to one of ten reachable pre-states by a concrete prefix (empty, populated, with a tombstone of the attacker / of the target, target "
+         "re-added with a self-attack, an attack removed again, emptied ...); ONE operation of a concrete kind (new argument, remove argument, new attack, remove attack) "
+         "with operands symbolic over the labels {0,1} is applied to the store and to a plain set model; the operation's Result and one group of observables (counts, "
+         "max id, lookups by label and id; or the three attack iterators) must agree.",
+    note="OUTSIDE: two or more symbolic operations in a row (measured: out of memory at 50 GB), more labels, String labels; the iterator group only for the pre-states on "
+         "which CBMC finishes. VecMap stands for HashMap under cfg(kani); counterexamples are confirmed natively with the real HashMap.",
     design="DESIGN.md section 4 (C12)")
 
 NOT_APPLICABLE = {
